@@ -576,6 +576,7 @@ func main() {
 		if pkg == nil {
 			continue
 		}
+		collectStacks(fset, info, t, files)
 		// package-level variables
 		for _, f := range files {
 			fname := filepath.Base(fset.Position(f.Pos()).Filename)
@@ -669,6 +670,7 @@ func main() {
 	emit(a, sites, vars, writes)
 	emitSorts(a, sites)
 	emitResets(a)
+	emitStacks(a)
 }
 
 func indexOfIdent(ns []*ast.Ident, n *ast.Ident) int {
